@@ -306,8 +306,60 @@ pub fn run(run: &mut Run) {
                 run.acc.violation("c13:builtin-sequence", format!("{}({x}) then {}({x}) then {}({x}) gave {ya}, {yb}, {ya2}", BUILTIN_NAMES[a], BUILTIN_NAMES[b], BUILTIN_NAMES[a]), case_json(4, i as u64, vec![("x", J::F(x as f64))]));
             }
         }
+        // "used as given" also when the custom easing is handed to a timeline: a custom default easing F and a keyframe
+        // carrying another custom easing G (and then a built-in, and then F again) — each segment must be shaped by,
+        // and only by, the function given for it
+        for i in 0..400u32 {
+            use crate::shapes::{Shape, S1};
+            use mina::Timeline;
+            let (fid, gid) = (i % 10, (i / 10) % 10);
+            if fid == gid {
+                continue;
+            }
+            let spec = crate::spec::TlSpec {
+                cycle: 1.0,
+                delay: 0.0,
+                repeat: crate::spec::Rep::None,
+                reverse: false,
+                default_easing: Some(crate::spec::Eas::Rec(fid)),
+                kfs: vec![
+                    crate::spec::KfSpec { pos: 0.0, vals: vec![Some(0.0)], easing: None },
+                    crate::spec::KfSpec { pos: 0.25, vals: vec![Some(1.0)], easing: Some(crate::spec::Eas::Rec(gid)) },
+                    crate::spec::KfSpec { pos: 0.5, vals: vec![Some(3.0)], easing: Some(crate::spec::Eas::Builtin(0)) },
+                    crate::spec::KfSpec { pos: 0.75, vals: vec![Some(4.0)], easing: Some(crate::spec::Eas::Rec(fid)) },
+                    crate::spec::KfSpec { pos: 1.0, vals: vec![Some(8.0)], easing: None },
+                ],
+            };
+            let tl = S1::build_tl(&spec);
+            let x = ((i * 37 % 63) + 1) as f32 / 64.0; // fraction within a segment, exact
+            for (seg, (a, b, who)) in [(0.0f32, 1.0f32, Some(fid)), (1.0, 3.0, Some(gid)), (3.0, 4.0, None), (4.0, 8.0, Some(fid))].iter().enumerate() {
+                let t = 0.25 * (seg as f32 + x);
+                let _ = rec_log_take();
+                let mut v = S1 { x: -1.0 };
+                tl.update(&mut v, t);
+                let log = rec_log_take();
+                run.acc.eval();
+                let y = match who {
+                    Some(id) => rec_pure(*id, x),
+                    None => x,
+                };
+                let want = a * (1.0 - y) + b * y;
+                let called_ok = match who {
+                    Some(id) => log.iter().any(|(l, lx)| l == id && *lx == x) && log.iter().all(|(l, _)| l == id),
+                    None => log.is_empty(),
+                };
+                if (v.x - want).abs() > 4.0 * ulp32(want.abs().max(1.0)) || !called_ok {
+                    run.acc.violation(
+                        "c13:custom-in-timeline",
+                        format!("timeline with custom default easing #{fid} and a keyframe easing #{gid}: segment {seg} at fraction {x} gives {} (expected {want} from {}); custom functions called: {:?}", v.x, who.map(|i| format!("custom #{i}")).unwrap_or("Linear".into()), log),
+                        case_json(5, i as u64, vec![("x", J::F(x as f64)), ("segment", J::U(seg as u64))]),
+                    );
+                }
+            }
+        }
         run.acc.sig("custom|as-given");
         run.acc.sig("custom|sequence-of-different-customs-same-x");
+        run.acc.sig("custom|custom-after-custom-in-a-timeline");
     }
     if thorough {
         run.exhaustive = Some(true);
